@@ -629,7 +629,11 @@ fn transform_expr(state: &mut State<'_>, scope: &mut Scope, expr: MonoExpr) -> L
                     },
                 });
                 call_args.extend(args);
-                let func_ty = entry.ty.clone();
+                // the apply function takes the environment struct first
+                let func_ty = Ty::TFunc {
+                    params: call_args.iter().map(|arg| arg.get_ty()).collect(),
+                    ret_ty: Box::new(ty.clone()),
+                };
                 return LiftExpr::ECall {
                     func: Box::new(LiftExpr::EVar {
                         name: apply_fn.to_string(),
